@@ -273,6 +273,14 @@ func (r *nodeRun) resultMutations(res ctypes.Operation) []resMut {
 	x := cl()
 	x.ID = "ffffffffffffffffffffffffffffffff"
 	out = append(out, resMut{"unknown-id", x})
+	// the identifier in another spelling (hex letters in capitals, blanks around it): not the identifier that was issued
+	for k, alt := range []string{strings.ToUpper(res.ID), " " + res.ID, res.ID + "\n"} {
+		if alt != res.ID {
+			x = cl()
+			x.ID = alt
+			out = append(out, resMut{[]string{"id-uppercase", "id-leading-blank", "id-trailing-newline"}[k], x})
+		}
+	}
 	x = cl()
 	x.Type = "state_dkg_deals_await_confirmations"
 	if string(res.Type) == "state_dkg_deals_await_confirmations" {
